@@ -703,6 +703,54 @@ theorem writeFile_spec (c : Cfg) (input : List In) :
       · exact Or.inr (List.mem_append_left _ (by rw [e]; exact List.mem_map_of_mem hd))
       · exact Or.inr (List.mem_append_right _ hm)
 
+/-! ### uploads that may fail -/
+
+theorem range_any_false (f : Nat → Bool) (n : Nat) (h : ¬ (List.range n).any f = true) :
+    ∀ i, i < n → f i = false := by
+  intro i hi
+  cases hf : f i with
+  | false => rfl
+  | true => exact absurd (List.any_eq_true.2 ⟨i, List.mem_range.2 hi, hf⟩) h
+
+/-- success of the fallible writer means: same result as the infallible one, and no upload failed -/
+theorem writeFileF_ok (fails : Nat → Bool) (c : Cfg) (input : List In) (parts : List Part) (objs : List Obj)
+    (h : writeFileF fails c input = .ok (parts, objs)) :
+    writeFile c input = .ok (parts, objs) ∧ ∀ i, i < objs.length → fails i = false := by
+  unfold writeFileF at h
+  unfold writeFile
+  rcases hw : writeFileChunks c input with ⟨n, spans, chunks⟩
+  rw [hw] at h
+  simp only at h ⊢
+  by_cases h1 : (List.range chunks.length).any fails = true
+  · simp [h1] at h
+  · simp only [h1] at h
+    cases ha : addBytesParts spans with
+    | error e => simp [ha] at h
+    | ok pu =>
+      rcases pu with ⟨ps, ups⟩
+      simp only [ha] at h ⊢
+      by_cases h2 : sumPartsSize ps ≠ n
+      · simp [h2] at h
+      · by_cases h3 : (List.range ups.length).any (fun j => fails (chunks.length + j)) = true
+        · simp [h2, h3] at h
+        · by_cases h4 : fails (chunks.length + ups.length) = true
+          · simp [h2, h3, h4] at h
+          · simp only [h2, h3, h4, if_false, Bool.false_eq_true] at h ⊢
+            refine ⟨h, ?_⟩
+            injection h with h
+            injection h with _ ho
+            subst ho
+            intro i hi
+            simp only [List.length_append, List.length_map, List.length_cons, List.length_nil] at hi
+            by_cases hc : i < chunks.length
+            · exact range_any_false _ _ h1 i hc
+            · by_cases hu : i < chunks.length + ups.length
+              · have := range_any_false _ _ h3 (i - chunks.length) (by omega)
+                simpa [show chunks.length + (i - chunks.length) = i by omega] using this
+              · have : i = chunks.length + ups.length := by omega
+                subst this
+                simpa using h4
+
 /-! ### static sets -/
 
 /-- every subset `t` merges is among `all` -/
